@@ -70,6 +70,7 @@ type rdr struct {
 	gen     int64 // writer generation when opened
 	current bool  // opened in a stable state: liveness may be demanded while gen is unchanged
 	probe   bool
+	dir     string // disk backend: the directory of the replication id the reader was opened under
 
 	started   atomic.Bool
 	harnessCl atomic.Bool // closed by the harness (set before closing)
@@ -559,6 +560,9 @@ func (e *env) openReader(who string, rid string, off int64, s1 int64, e1 int) (*
 	}
 	r := &rdr{rd: rd, isAof: rd.IsAof(), size: rd.Size(), askedAt: off, gen: gen, changed: make(chan struct{})}
 	r.current = s1 == s2 && s1%2 == 0 && gen == e.gen.Load()
+	if e.base != "" {
+		r.dir = filepath.Join(e.base, rid)
+	}
 	if r.isAof {
 		r.start = off
 		r.rc = e.m.NewReaderCheck(lo, e2, cm.Aof, off)
@@ -746,7 +750,13 @@ func (e *env) starved(r *rdr) bool {
 		return false // the byte may not be stored yet
 	}
 	covered := false
-	filepath.Walk(e.base, func(p string, info os.FileInfo, err error) error {
+	// a disk reader looks for its next segment under the directory it was opened under; after the
+	// replication id was switched (directory renamed) that directory does not come back
+	root := e.base
+	if r.dir != "" && r.gen != e.gen.Load() {
+		root = r.dir
+	}
+	filepath.Walk(root, func(p string, info os.FileInfo, err error) error {
 		if err != nil || info.IsDir() || !strings.HasSuffix(p, ".aof") {
 			return nil
 		}
@@ -1186,6 +1196,173 @@ func (e *env) stalledBehindFreshReader(r *rdr) bool {
 	e.closeReader(fr)
 	e.run.Count("stalled_reader_differential_probes", 1)
 	return got >= 1 && !bad && r.rc.Pos() == pos && !r.term.Load() && r.gen == e.gen.Load()
+}
+
+// freshReaderDelivers: a second reader opened now at offset next delivers at least one verified byte.
+func (e *env) freshReaderDelivers(next int64) bool {
+	rid := e.ch.RunId()
+	if !e.ch.IsValidOffset(syncer.Offset{RunId: rid, Offset: next}) {
+		return false
+	}
+	fr, err := e.openReader("rd2", rid, next, e.m.ChangeSeq(), e.m.CurID())
+	if err != nil || !fr.isAof {
+		if err == nil {
+			e.closeReader(fr)
+		}
+		return false
+	}
+	fr.probe = true
+	e.startReader(fr)
+	e.waitReader(fr, 1, nil)
+	got := fr.rc.Pos()
+	bad := fr.bad.Load()
+	e.closeReader(fr)
+	e.run.Count("stalled_reader_differential_probes", 1)
+	return got >= 1 && !bad
+}
+
+// judgeSurvivors: clause (ii) for stream readers that lived through a re-opening of the cache which
+// kept the data (the tool reconnects to its source: the disk cache is re-indexed, the data stays
+// filed under the same replication id or - after a fail-over answered with +CONTINUE <new id> - is
+// re-filed under the new one, and a new writer continues at the right edge).  The statement lets
+// such a reader keep following the writer, or end, or fail.  What it may not do is stay open and
+// wait for ever for bytes it can never get: neither following nor ended.  Decided on a stable
+// structural fact (the file that holds the reader's next byte does not exist where the reader
+// looks for it, although that byte is stored) plus a second reader that is given that very byte;
+// no progress without that fact stays inconclusive.
+func (e *env) judgeSurvivors(surv []*rdr, kind string) {
+	if e.stopped() {
+		return
+	}
+	f := e.facts()
+	if !f.exact || !f.hasAof {
+		return
+	}
+	for _, r := range surv {
+		if r.harnessCl.Load() || r.bad.Load() || !r.isAof || !r.started.Load() {
+			continue
+		}
+		want := f.right - r.start
+		res := e.waitReader(r, want, nil)
+		switch {
+		case r.bad.Load():
+			return
+		case res == waitDone && r.term.Load() && r.rc.Pos() < want:
+			e.run.Count("survivors_ended", 1)
+			e.feat("survivor.ended")
+		case res == waitDone:
+			e.run.Count("survivors_followed_the_new_writer", 1)
+			e.feat("survivor.followed")
+		case res == waitStarved:
+			// stable fact (see starved): the byte the reader owes next is stored history, and the
+			// file that held it is not where the reader polls for it - the directory was renamed
+			// away, or the collector took the segment because the reader's registration did not
+			// survive the re-opening.  It can never be given that byte, and it has not ended.
+			next := r.start + r.rc.Pos()
+			second := "the offset has meanwhile been collected from the cache altogether"
+			if e.freshReaderDelivers(next) {
+				second = "a second reader opened at that very offset was given the byte"
+			}
+			if r.term.Load() || r.rc.Pos()+r.start != next {
+				e.run.Count("survivors_ended", 1)
+				continue
+			}
+			e.violate(fmt.Sprintf("ii-live|%s|survivor-left-waiting|%s|aof", e.be(), kind),
+				fmt.Sprintf("(ii) a reader that was open when the cache was re-opened (%s, data kept, new writer continued at the right edge) neither followed the new writer nor ended: it stands at offset %d of %d and polls for a segment file that does not exist under %s; %s", kind, next, f.right, strings.TrimPrefix(r.dir, e.base), second),
+				map[string]any{"reader": r.describe(), "files": e.listFiles(), "model": fmt.Sprintf("%+v", f)})
+			return
+		default:
+			e.inconclusive("watchdog: survivor %s delivered %d of %d bytes, still open, no progress (%s)", r.describe(), r.rc.Pos(), want, kind)
+			return
+		}
+	}
+}
+
+// directedSurvivor: readers are open (caught up, or obtained by a slow caller that has not started
+// them yet) when the tool reconnects to its source and continues the same history: the writer
+// ends, StartPoint(ids) re-opens the cache, SetRunId keeps the data (same id, or a new id with
+// the old one second in the list), a new writer continues at the right edge and writes more than
+// the size limit while the collector runs.  See judgeSurvivors.
+func (e *env) directedSurvivor() {
+	rng := e.rng
+	seg := int(e.cfg.LogSize)
+	src := e.newID()
+	e.startPoint([]string{src})
+	e.h.Note("session 0 mode=clear (directed: readers that live through a re-opening of the cache)")
+	e.delRunId(e.ch.RunId())
+	e.setRunId(src)
+	off := 1 + rng.Int63n(1<<20)
+	if e.newAofWriter(off, true) == nil {
+		return
+	}
+	var surv []*rdr
+	total := (2+rng.Intn(3))*seg + rng.Intn(seg)
+	for fed := 0; fed < total && !e.stopped(); {
+		n := 1 + rng.Intn(seg)
+		e.push(n, true)
+		fed += n
+		if len(surv) < 3 && fed > seg && rng.Intn(2) == 0 {
+			if r := e.openAt([]string{"left", "mid", "right"}[rng.Intn(3)], rng.Intn(2) == 0); r != nil && r.isAof {
+				surv = append(surv, r)
+			}
+		}
+	}
+	if e.stopped() {
+		return
+	}
+	if len(surv) == 0 {
+		if r := e.openAt("left", rng.Intn(2) == 0); r != nil && r.isAof {
+			surv = append(surv, r)
+		}
+	}
+	e.catchUp("before the cache is re-opened")
+	if e.stopped() {
+		return
+	}
+	e.endWriter([]string{"eof", "close"}[rng.Intn(2)])
+	kind, ids := "same-id", []string{src}
+	if rng.Intn(2) == 0 {
+		kind, ids = "new-id", []string{e.newID(), src}
+	}
+	sp := e.startPoint(ids)
+	f := e.facts()
+	if !contains(ids, sp.RunId) || sp.Offset != f.right {
+		e.run.Count("survivor_histories_not_continuable", 1)
+		e.finishHistory()
+		return
+	}
+	e.h.Note("session 1 mode=continue (%s)", kind)
+	e.setRunId(ids[0])
+	if e.newAofWriter(sp.Offset, true) == nil {
+		return
+	}
+	e.feat("survivor." + kind)
+	more := int64((3 + rng.Intn(4)) * seg)
+	if e.cfg.MaxSize > 0 && more < e.cfg.MaxSize+int64(2*seg) {
+		more = e.cfg.MaxSize + int64(2*seg)
+	}
+	for fed := int64(0); fed < more && !e.stopped(); {
+		n := 1 + rng.Intn(seg)
+		e.push(n, true)
+		fed += int64(n)
+		if rng.Intn(3) == 0 {
+			e.gc()
+		}
+	}
+	e.gc()
+	for _, r := range surv {
+		if !r.started.Load() {
+			e.startReader(r)
+		}
+	}
+	e.run.Count("survivor_histories", 1)
+	e.judgeSurvivors(surv, kind)
+	if e.stopped() {
+		return
+	}
+	e.endWriter("eof")
+	e.probe("end of the survivor history")
+	e.finishHistory()
 }
 
 // ---- sequential histories ----
@@ -2262,6 +2439,9 @@ func runCase(run *harness.Run, key string, mode string, i int, procs int) {
 	case i%12 == 5 || i%12 == 10: // one disk, one memory history in twelve
 		e.feat("directed.stale-reader")
 		e.directedStaleReader()
+	case i%12 == 3 || i%12 == 8: // one memory, one disk history in twelve
+		e.feat("directed.survivor")
+		e.directedSurvivor()
 	default:
 		e.sequential()
 	}
